@@ -70,10 +70,21 @@ def _registry(prop):
                 v = Variant(prop, "refactor-%s" % tid, [], expect=None, why="behaviour-preserving refactoring written without knowledge of the checks")
                 v.patch = (patch, False)
                 out.append(v)
+    # mechanical whole-package transformations (tools/mech_twins.py): silent under every property
+    for kind in ("alpha", "swap", "ifexp", "elif", "comp", "hoist", "all"):
+        v = Variant(prop, "mechanical-%s" % kind, [], expect=None,
+                    why="mechanical behaviour-preserving transformation of every function of the package (%s)" % kind)
+        v.transform = kind
+        out.append(v)
     return out
 
 
 def _apply(root, variant):
+    kind = getattr(variant, "transform", None)
+    if kind is not None:
+        sys.path.insert(0, os.path.join(HERE, "tools"))
+        import mech_twins
+        return mech_twins.transform(kind, os.path.join(root, "src")) > 0
     patch = getattr(variant, "patch", None)
     if patch is not None:
         import subprocess
